@@ -498,6 +498,19 @@ def fit_jobs(ctx):
                         mags = [r.uniform(0.05, 2.95) for _ in range(npar)]
                     jobs.append(dict(model=model, true=[sg * m for sg, m in zip(signs, mags)], log_opt=log_opt, pmin=0, pmax=3,
                                      seed=r.randrange(2 ** 31), data_seed=r.randrange(2 ** 31), sigma=0.5, npoints=24))
+    # weakly constrained single parameters (0.6 - 0.9 sigma from zero), both signs, both modes: in log mode the two sign branches
+    # then end within 0.5 of each other -- the branch with the lower value must still be the one returned
+    for model in ("a0", "a0*x"):
+        for sign in (1, -1):
+            for log_opt in (False, True):
+                for s in range(2 if ctx.quick else 10):
+                    jobs.append(dict(model=model, true=[sign * 10 ** r.uniform(0.1, 0.45)], log_opt=log_opt, pmin=0, pmax=3,
+                                     seed=r.randrange(2 ** 31), data_seed=r.randrange(2 ** 31), sigma=0.5, npoints=24,
+                                     weak=r.uniform(0.6, 0.9)))
+    # five parameters (one more than the predefined parameter symbols)
+    for s in range(1 if ctx.quick else 4):
+        jobs.append(dict(model="a0+a1*sin(x)+a2*cos(x)+a3*sin(2*x)+a4*cos(2*x)", true=[r.choice([1, -1]) * r.uniform(0.3, 2.5) for _ in range(5)],
+                         log_opt=bool(s % 2), pmin=0, pmax=3, seed=r.randrange(2 ** 31), data_seed=r.randrange(2 ** 31), sigma=0.3, npoints=40))
     return jobs
 
 
